@@ -22,6 +22,8 @@ import (
 	"encoding/json"
 	"fmt"
 	"math/big"
+	"os"
+	"runtime/debug"
 	"strconv"
 	"strings"
 
@@ -264,6 +266,9 @@ func (r envResult) show(payload []byte, sender, self *envParty, legacy bool, kid
 func envUnpack(pk packer.Packer, env []byte) (res envResult) {
 	defer func() {
 		if e := recover(); e != nil {
+			if os_trace() {
+				fmt.Fprintf(os.Stderr, "unpack panic: %v\n%s\n", e, debug.Stack())
+			}
 			panic(fmt.Sprintf("unpack panicked: %v", e))
 		}
 	}()
